@@ -123,8 +123,12 @@ theorem rect_roundtrip (r : RectM) (rest : Bytes) : decodeRect (encodeRect r ++ 
   decodeRect_encode r rest
 theorem cellID_roundtrip (c : UInt64) (rest : Bytes) : decodeCellID (encodeCellID c ++ rest) = some (c, rest) :=
   decodeCellID_encode c rest
-theorem cell_roundtrip (c : UInt64) (rest : Bytes) : decodeCell (encodeCell c ++ rest) = some (c, rest) :=
-  decodeCell_encode c rest
+/-- a Cell round-trips iff its id is a valid cell id (every `Cell` value built by the API has one);
+    `Cell.Decode` rejects bytes that do not hold a valid id -/
+theorem cell_roundtrip (c : UInt64) (hv : S2.CellID.isValid c = true) (rest : Bytes) :
+    decodeCell (encodeCell c ++ rest) = some (c, rest) :=
+  decodeCell_encode c hv rest
+example : S2.CellID.isValid 0x1000000000000000 = true := by decide
 
 /-- every cell union the encoder accepts round-trips (same ids, same order) -/
 theorem cellUnion_roundtrip (cu : List UInt64) (bytes : Bytes) (henc : encodeCellUnion cu = some bytes)
